@@ -32,6 +32,8 @@ func init() {
 			{ID: "C17-R7", Title: "marshalled bytes are not storage of a pooled object", Floor: 1, Run: func(c *core.Ctx) { pooledResult(c) }},
 			{ID: "C17-R8", Title: "Code.Root returns a parentless code object (shared with C18-R7)", Floor: 1, Run: rootHasNoParent},
 			{ID: "C17-R9", Title: "marshalling iterates maps in a determined order (C05-R1 over package compiler)", Floor: 3, Run: func(c *core.Ctx) { c05r1Scoped(c, "compiler") }},
+			{ID: "C17-R10", Title: "child symbol tables are only appended (a table's id is its position)", Floor: 1, Run: childTablesAppendOnly},
+			{ID: "C17-R11", Title: "instruction arrays are not classified element by element (operands are not opcodes)", Floor: 1, Run: operandsAreNotOpcodes},
 		},
 	})
 }
